@@ -81,6 +81,16 @@ func genHistory(c *core.Ctx, i int, maxLen int) *history {
 	if i < 2*len(cases) {
 		h.sc = cases[i%len(cases)]
 	}
+	sweep := -1
+	if j := i - 2*len(cases); j >= 0 && j < len(sizeSweep) {
+		// incompressible records whose size walks across buffer-size boundaries
+		sweep = sizeSweep[j]
+		for _, sc := range cases {
+			if sc.Name == "HBytes" {
+				h.sc = sc
+			}
+		}
+	}
 	h.comp = compressions[r.IntN(3)]
 	s, err := lib.SchemaFor(h.sc.RT)
 	if err != nil {
@@ -99,6 +109,9 @@ func genHistory(c *core.Ctx, i int, maxLen int) *history {
 		return nil
 	}
 	nv := 1 + r.IntN(8)
+	if sweep >= 0 {
+		nv = 1 + r.IntN(2)
+	}
 	sizes := []int{}
 	for k := 0; k < nv; k++ {
 		o := gen.ValOpts{MaxMapEntries: 1, NoBigStrings: r.IntN(4) != 0}
@@ -109,6 +122,14 @@ func genHistory(c *core.Ctx, i int, maxLen int) *history {
 			o.Mode = gen.ModeFull
 		}
 		v := gen.NewValue(r, h.sc.IR, o)
+		if sweep >= 0 {
+			v = reflect.New(h.sc.RT).Elem()
+			b := make([]byte, sweep)
+			for x := range b {
+				b[x] = byte(r.Uint32())
+			}
+			v.FieldByName("B").SetBytes(b)
+		}
 		enc, ok := encodeValue(c, h.sc, codec, rs, v)
 		if !ok {
 			return nil
